@@ -304,6 +304,84 @@ def op (st : St) (toks : List String) : St × String :=
         | _, _, _, _ => (st, "BADOP helpers outcome parse")
       | _ => (st, "BADOP helpers outcome")
     | _, _ => (st, "BADOP helpers")
+  | ["reuse", w, vs] =>
+    match pv w, pvs vs with
+    | some w, some vs =>
+      let k := vs.length
+      if post.length != 2 * k then (st, "BADOP reuse outcome count") else
+      let n := w.length
+      let pw := cosPre f32 w
+      let env : Int := 2 * n + 14
+      let judge (v : V) (tok : String) : List (String × Bool) × Option String :=
+        match tok.splitOn ";" with
+        | [p, d, nz, nr, l2, bl, cc, cb, unch] =>
+          match parseOptV p, parseOptF d, pv nz, pf nr, pf l2, pfs bl, pf cc, pfs cb with
+          | some ip, some idd, some inz, some inr, some il2, some ibl, some icc, some icb =>
+            let mp := cosPre f32 v
+            let md : Option Float32 := do let a ← mp; let b ← pw; pure (cosine f32 a b)
+            let diff := firstDiff [cmpTok "Preprocess" (optV mp) (optV ip), cmpTok "d" (optF md) (optF idd),
+              cmpTok "Normalize" (hv (normalize f32 v)) (hv inz), cmpTok "Norm" (hx (norm f32 v)) (hx inr),
+              cmpTok "l2" (hx (euclid f32 v w)) (hx il2), cmpTok "cosine" (hx (cosine f32 v w)) (hx icc)]
+            let rng := inRange v && inRange w
+            let z := allZero v
+            ([("depends_only_on_current_contents:pre_zero_rejected", !z || ip.isNone),
+              ("depends_only_on_current_contents:pre_nonzero_accepted", !rng || z || ip.isSome),
+              ("depends_only_on_current_contents:pre_unit", !rng || (match ip with | some p => unitOk p n && p.length == n | none => true)),
+              ("depends_only_on_current_contents:cosine_eq_one_sub_cos",
+                !rng || (match ip, pw, idd with | some _, some _, some d => cosFormulaOk d v w env | _, _, _ => true)),
+              ("depends_only_on_current_contents:normalize", inz.length == n && (!rng || (if z then hv inz == hv v else unitOk inz n))),
+              ("depends_only_on_current_contents:norm_def", !rng || (nonneg inr && normOk inr v n)),
+              ("batch_eq_elementwise", hfs ibl == hx il2 && hfs icb == hx icc),
+              ("calls_never_modify_arguments", unch == "1")], diff)
+          | _, _, _, _, _, _, _, _ => ([("parse", false)], none)
+        | _ => ([("parse", false)], none)
+      let judgeIn (v : V) (tok : String) : List (String × Bool) × Option String :=
+        match tok.splitOn ";" with
+        | ["inplace", stt, buf] =>
+          match pv buf with
+          | some ibuf =>
+            let m := cosPre f32 v
+            let mbuf := match m with | none => v | some x => x
+            let diff := firstDiff [cmpTok "inplace_status" (if m.isNone then "zero" else "ok") stt, cmpTok "inplace_buf" (hv mbuf) (hv ibuf)]
+            let rng := inRange v
+            let z := allZero v
+            ([("depends_only_on_current_contents:inplace_zero_rejected", !z || (stt == "zero" && hv ibuf == hv v)),
+              ("depends_only_on_current_contents:inplace_unit", !rng || z || (stt == "ok" && unitOk ibuf n))], diff)
+          | none => ([("parse", false)], none)
+        | _ => ([("parse", false)], none)
+      let r1 := List.zipWith judge vs (post.take k)
+      let r2 := List.zipWith judgeIn vs (post.drop k)
+      let all := r1 ++ r2
+      (st, verdict (all.flatMap (·.1)) (firstDiff (all.map (·.2))) s!"n={n} steps={k} reuse=1 haszero={b01 (vs.any allZero)}")
+    | _, _ => (st, "BADOP reuse")
+  | ["rows", vs, s] =>
+    match pvs vs, pf s with
+    | some vs, some s =>
+      match post with
+      | [pres, nzs, scs, bs, stt, after, after2, intact, fresh, onlyRow] =>
+        match (pres.splitOn ",").mapM parseOptV, pvs nzs, pvs scs, (bs.splitOn ";").mapM pfs, pv after, pv after2 with
+        | some ipres, some inzs, some iscs, some ibs, some iafter, some iafter2 =>
+          let n := (vs.headD []).length
+          let mid := vs.getD (vs.length / 2) []
+          let t := vs.headD []
+          let mpre := cosPre f32 mid
+          let diff := firstDiff [
+            cmpTok "Preprocess" (",".intercalate (vs.map fun v => optV (cosPre f32 v))) (",".intercalate (ipres.map optV)),
+            cmpTok "Normalize" (",".intercalate (vs.map fun v => hv (normalize f32 v))) (",".intercalate (inzs.map hv)),
+            cmpTok "Scale" (",".intercalate (vs.map fun v => hv (scale f32 v s))) (",".intercalate (iscs.map hv)),
+            cmpTok "CalculateBatch" (";".intercalate (kinds.map fun k => hfs (calculateBatch f32 k vs t))) (";".intercalate (ibs.map hfs)),
+            cmpTok "inplace_status" (if mpre.isNone then "zero" else "ok") stt,
+            cmpTok "PreprocessInPlace" (hv (match mpre with | none => mid | some x => x)) (hv iafter),
+            cmpTok "NormalizeInPlace" (hv (normalize f32 mid)) (hv iafter2)]
+          let checks : List (String × Bool) := [
+            ("nothing_but_the_result_is_written (argument, memory before / behind it up to its capacity)", intact == "1"),
+            ("result_is_fresh_memory", fresh == "1"),
+            ("inplace_writes_only_its_argument", onlyRow == "1"),
+            ("pre_unit", (List.zipWith (fun v (p : Option V) => !(inRange v) || (match p with | some p => unitOk p n | none => allZero v)) vs ipres).all id)]
+          (st, verdict checks diff s!"n={n} rows={vs.length} rowviews=1")
+        | _, _, _, _, _, _ => (st, "BADOP rows outcome parse")
+      | _ => (st, "BADOP rows outcome")
+    | _, _ => (st, "BADOP rows")
   | _ => (st, "BADOP unknown")
 
 def handler : Handler := { name := "dist", σ := St, init := init, op := op }
